@@ -147,6 +147,34 @@ def nameChar (c : UInt8) : Bool :=
   c != 0 && !isSpace c && c != 35 && c != 61 && c != 123 && c != 125 && c != 91 && c != 93 && c != 124 && c != 46
 def nameOk (n : List UInt8) : Bool := !n.isEmpty && n.all nameChar && n.length < 65535
 
+/-! ### name restrictions (`MPT_NAMEFLAG`: what a section / option name may contain) -/
+
+/-- flag bits of a name restriction word -/
+def flagNumStart : Nat := 0x1   -- a digit as first character
+def flagNumCont  : Nat := 0x2   -- digits behind the first character
+def flagSpecial  : Nat := 0x4   -- printable characters that are neither letters nor digits
+def flagSpace    : Nat := 0x8   -- white space
+def flagEmpty    : Nat := 0x10  -- the empty name
+def flagBinary   : Nat := 0x20  -- non-printable bytes (control characters, bytes ≥ 0x7f)
+
+def isDigit (c : UInt8) : Bool := 48 ≤ c && c ≤ 57
+def isAlnum (c : UInt8) : Bool := isDigit c || (65 ≤ c && c ≤ 90) || (97 ≤ c && c ≤ 122)
+def isPrint (c : UInt8) : Bool := 32 ≤ c && c ≤ 126
+
+/-- the characters of a name from position `first` on are permitted by the flag word -/
+def charsFit (flags : Nat) : Bool → List UInt8 → Bool
+  | _, [] => true
+  | first, c :: rest =>
+    (if isSpace c then flags &&& flagSpace != 0
+     else if isDigit c then flags &&& (if first then flagNumStart else flagNumCont) != 0
+     else if !isPrint c then flags &&& flagBinary != 0
+     else if !isAlnum c then flags &&& flagSpecial != 0
+     else true) && charsFit flags false rest
+
+/-- a name the flag word permits -/
+def nameFits (flags : Nat) (n : List UInt8) : Bool :=
+  if n.isEmpty then flags &&& flagEmpty != 0 else charsFit flags true n
+
 /-! ### lines -/
 def optionLine (d : LineDecor) (n : List UInt8) (v : Option (List UInt8)) : List UInt8 :=
   d.before ++ d.indent ++ n ++ d.pre ++ [61] ++ d.post ++
@@ -279,6 +307,19 @@ def flatShape : Forest → Bool
 
 def admissible (style : Style) (f : Forest) : Bool :=
   nodesOk f && (match style with | .brace => true | .enc => true | _ => flatShape f)
+
+mutual
+/-- the names of a tree are permitted by the restriction words for section names (`sect`) and option names
+    (`opt`): a node with children is a section; a node without children is an option — and, when it has no
+    value, possibly written as an empty section, so its name has to pass both words -/
+def treeFits (sect opt : Nat) : Tree → Bool
+  | .node n v cs =>
+    if cs.isEmpty then nameFits opt n && (!valueless v || nameFits sect n)
+    else nameFits sect n && forestFits sect opt cs
+def forestFits (sect opt : Nat) : Forest → Bool
+  | [] => true
+  | t :: ts => treeFits sect opt t && forestFits sect opt ts
+end
 
 mutual
 /-- what is read back: a leaf without text has no value (an empty value and an empty section are the
